@@ -681,6 +681,49 @@ class SFloat:
         return sbool(self.u)
 
 
+class SPyNum(SFloat):
+    """A symbolic *Python* number (JSON payload value): like SFloat, but true division by
+    zero raises ZeroDivisionError as CPython does (numpy scalars do not)."""
+
+    __slots__ = ()
+
+    def __truediv__(self, o):
+        try:
+            o = SFloat.lift(o)
+        except OutOfReach:
+            return NotImplemented  # -> TypeError, as for float / None
+        if bool(o == 0):
+            raise ZeroDivisionError("division by zero")
+        r = SFloat._bin(self, o, "/")
+        return SPyNum(r.u, r.v)
+
+    def __rtruediv__(self, o):
+        try:
+            o = SFloat.lift(o)
+        except OutOfReach:
+            return NotImplemented
+        if bool(self == 0):
+            raise ZeroDivisionError("division by zero")
+        r = SFloat._bin(o, self, "/")
+        return SPyNum(r.u, r.v)
+
+    def _bin(self, o, op):
+        if op == "/":
+            return self.__truediv__(o)
+        r = SFloat._bin(self, o, op)
+        return r if r is NotImplemented else SPyNum(r.u, r.v)
+
+    def __radd__(self, o):
+        try:
+            r = SFloat.lift(o)._bin(self, "+")
+        except OutOfReach:
+            return NotImplemented
+        return SPyNum(r.u, r.v)
+
+    def __bool__(self):
+        return bool(self != 0)
+
+
 def f_ite(c, a, b):
     """ite over SFloat"""
     a, b = SFloat.lift(a), SFloat.lift(b)
